@@ -90,7 +90,17 @@ contract(f"{M}:HeaderExtensionsMap.set", params={"values": "HeaderExtensions"},
          at_call={"pack_header_extensions": [
              "forall(lambda j: 0 < extensions[j][0] < 256 and len(extensions[j][1]) < 256, 0, len(extensions))"] + [
              f"forall(lambda j: implies(extensions[j][0] == {_IDS}.{f}, len(extensions[j][1]) == {n}), 0, len(extensions))"
-             for f, n in _SIZE.items()]},
+             for f, n in _SIZE.items()] + [
+             # the values themselves, in the encoding HeaderExtensionsMap.get decodes (24-bit unsigned, 24-bit two's
+             # complement, V bit + 7-bit level, 16-bit unsigned)
+             f"forall(lambda j: implies(extensions[j][0] == {_IDS}.abs_send_time, u24(extensions[j][1], 0) == values.abs_send_time), 0, len(extensions))",
+             f"forall(lambda j: implies(extensions[j][0] == {_IDS}.transmission_offset, i24(extensions[j][1], 0) == values.transmission_offset), 0, len(extensions))",
+             f"forall(lambda j: implies(extensions[j][0] == {_IDS}.audio_level, u8(extensions[j][1], 0) == ite(values.audio_level[0], 128, 0) + values.audio_level[1]), 0, len(extensions))",
+             f"forall(lambda j: implies(extensions[j][0] == {_IDS}.transport_sequence_number, u16(extensions[j][1], 0) == values.transport_sequence_number), 0, len(extensions))",
+             # nothing configured is left out and nothing is sent twice: one entry per value that is set and whose
+             # extension has a (non-zero) id
+             "len(extensions) == " + " + ".join(
+                 f"ite(values.{f} is not None and {_IDS}.{f} is not None and {_IDS}.{f} != 0, 1, 0)" for f in _ALL)]},
          # a stream id that is not ASCII is refused with UnicodeEncodeError, a ValueError
          raises={"ValueError": None},
          locals={"extensions": "list[tuple[int,bytes]]"},
